@@ -448,6 +448,51 @@ Section Forced.
     assert (Hl4 : Nat.ltb id (List.length (w_states w4)) = true) by (apply Nat.ltb_lt; lia).
     now rewrite Hl4.
   Qed.
+
+  (* ... and a successful request that was not a memory hit leaves the object unmarked: the forced
+     recomputation consumes the mark (a stored result is loaded only by unmarked objects) *)
+  Theorem eval_success_unmarks f w id w' v :
+    id < List.length (w_states w) -> os_mem (state_of w id) = None ->
+    eval classes run f w id = (w', inl v) -> os_forced (state_of w' id) = false.
+  Proof.
+    destruct f as [|f]; intros Hl Em He; [discriminate|].
+    cbn [eval] in He. fold (step_of classes run f) in He.
+    destruct (nth_error (w_objs w) id) as [o|]; [|discriminate].
+    destruct (cls_of classes o) as [tc|]; [|discriminate].
+    rewrite Em in He.
+    destruct (persisting (c_data tc) && negb (os_forced (state_of w id))) eqn:Ec.
+    - destruct (dget _ _) as [[|v1|v1|l1]|].
+      1,3,4: discriminate.
+      { injection He as <- <-. rewrite state_of_set_state. simpl. rewrite Nat.eqb_refl.
+        apply Nat.ltb_lt in Hl. rewrite Hl. simpl.
+        apply andb_true_iff in Ec. destruct Ec as [_ Ec]. now apply negb_true_iff in Ec. }
+      fold (pre_of classes run f o) in He.
+      match type of He with context [fold_left (pre_of classes run f o) ?l ?a] =>
+        destruct (fold_left (pre_of classes run f o) l a) as [w2' b'] eqn:Epre end.
+      apply (fold_pre_rel classes run (fun a b => List.length (w_states b) = List.length (w_states a))) in Epre;
+        [|reflexivity|intros a b c H1 H2; congruence|apply eval_states_len].
+      simpl in Epre.
+      destruct b'; [|discriminate].
+      destruct (existsb _ _); [discriminate|].
+      match type of He with (match ?X with _ => _ end) = _ => destruct X as [w4 [ins|e]] eqn:Ef end; [|discriminate].
+      apply (fold_states_len f (eval_states_len f)) in Ef. injection He as <- <-.
+      rewrite state_of_set_state. simpl in *. rewrite Nat.eqb_refl.
+      assert (Hl4 : Nat.ltb id (List.length (w_states w4)) = true) by (apply Nat.ltb_lt; lia).
+      now rewrite Hl4.
+    - fold (pre_of classes run f o) in He.
+      match type of He with context [fold_left (pre_of classes run f o) ?l ?a] =>
+        destruct (fold_left (pre_of classes run f o) l a) as [w2' b'] eqn:Epre end.
+      apply (fold_pre_rel classes run (fun a b => List.length (w_states b) = List.length (w_states a))) in Epre;
+        [|reflexivity|intros a b c H1 H2; congruence|apply eval_states_len].
+      simpl in Epre.
+      destruct b'; [|discriminate].
+      destruct (existsb _ _); [discriminate|].
+      match type of He with (match ?X with _ => _ end) = _ => destruct X as [w4 [ins|e]] eqn:Ef end; [|discriminate].
+      apply (fold_states_len f (eval_states_len f)) in Ef. injection He as <- <-.
+      rewrite state_of_set_state. simpl in *. rewrite Nat.eqb_refl.
+      assert (Hl4 : Nat.ltb id (List.length (w_states w4)) = true) by (apply Nat.ltb_lt; lia).
+      now rewrite Hl4.
+  Qed.
 End Forced.
 
 Section Objs.
